@@ -56,13 +56,20 @@ def to_program(pid, h, mode="plain"):
         if a["a"] in ("get", "getrow", "getb"):
             add({"op": "getitem", "a": tgt, "i": i, "tag": "acc"})
         elif a["a"] in ("set", "setb"):
-            add({"op": "setitem", "a": tgt, "i": i, "v": idx(a["v"], "s"), "tag": "acc"})
+            if a.get("cnd", -1) >= 0:
+                # the write sits in an oblivious branch on a context holding the array; the merged array replaces it afterwards
+                add({"op": "branchset", "a": arr, "cond": add({"op": "new", "kind": "priv", "ty": "bool", "v": a["cnd"]}), "i": i, "v": idx(a["v"], "s"), "tag": "acc"})
+            else:
+                add({"op": "setitem", "a": tgt, "i": i, "v": idx(a["v"], "s"), "tag": "acc"})
         elif a["a"] == "get2":
             j = i if re == "d" else idx(a["j"], a["jk"])
             add({"op": "getitem", "a": arr, "i": {"l": [i, j]}, "tag": "acc"})
         elif a["a"] == "set2":
             j = i if re == "d" else idx(a["j"], a["jk"])
-            add({"op": "setitem", "a": arr, "i": {"l": [i, j]}, "v": {"c": a["v"]}, "tag": "acc"})
+            if a.get("cnd", -1) >= 0:
+                add({"op": "branchset", "a": arr, "cond": add({"op": "new", "kind": "priv", "ty": "bool", "v": a["cnd"]}), "i": {"l": [i, j]}, "v": {"c": a["v"]}, "tag": "acc"})
+            else:
+                add({"op": "setitem", "a": arr, "i": {"l": [i, j]}, "v": {"c": a["v"]}, "tag": "acc"})
         elif a["a"] == "copyrow":
             # m[dst] = m[src]: a compound statement -- read the row (may raise), then store it at the public position
             add({"op": "copyrow", "a": arr, "dst": a["i"], "src": idx(a["j"], a["jk"]), "tag": "acc"})
@@ -78,7 +85,7 @@ def view(tr):
     for k in range(0, len(acc) - 1, 2):
         a, p = acc[k], acc[k + 1]
         spec = h["hist"][k // 2]
-        evs.append({"a": spec["a"], "i": spec["i"], "j": spec["j"], "v": spec["v"], "ik": spec["ik"], "jk": spec["jk"], "re": spec.get("re", "n"), "out": a["out"],
+        evs.append({"a": spec["a"], "i": spec["i"], "j": spec["j"], "v": spec["v"], "ik": spec["ik"], "jk": spec["jk"], "re": spec.get("re", "n"), "cnd": spec.get("cnd", -1), "out": a["out"],
                     "ret": [x["v"] for x in a["res"]] if a["out"] == "ok" else [], "cells": [x["v"] for x in p["res"]], "seq": a["seq"]})
     return {"id": tr["id"], "dim": h["dim"], "arr0": h["arr0"], "events": evs}
 
@@ -134,8 +141,16 @@ def main(tier):
     if tier == "quick":
         # quick: all histories of 1 access, every 2-access history on 1-D arrays, every fifth on the 2x2 array but ALL of those
         # that start with a row copy
-        hists = [h for k, h in enumerate(hists) if len(h["hist"]) == 1 or (h["dim"] == 1 and k % 3 == 0) or k % 7 == 0 or h["hist"][0]["a"] == "copyrow"
-                 or any(a["re"] != "n" for a in h["hist"])]
+        def special(h):
+            return any(a["re"] != "n" or a["cnd"] >= 0 for a in h["hist"])
+
+        def thin(hs, target):
+            st = max(1, len(hs) // target)
+            return hs[::st]
+        one = [h for h in hists if len(h["hist"]) == 1]
+        two = [h for h in hists if len(h["hist"]) == 2]
+        hists = one + thin([h for h in two if h["dim"] == 1 and not special(h)], 3000) + thin([h for h in two if h["dim"] == 2 and not special(h)], 4000) \
+            + thin([h for h in two if special(h)], 9000) + thin([h for h in two if h["hist"][0]["a"] == "copyrow"], 1500)
     progs = [to_program("h%d" % i, h) for i, h in enumerate(hists)]
     traces = common.run_programs(cfg, progs)
     for h in hists:
@@ -171,7 +186,7 @@ def main(tier):
         groups = {}
         for p, t in zip(progs, traces):
             h = p["meta"]["hist"]
-            key = json.dumps([h["dim"], h["arr0"], [[a["a"], a["v"], a["ik"], a["jk"], a["re"]] + ([a["i"]] if a["ik"] == "p" else []) + ([a["j"]] if a["jk"] == "p" else []) for a in h["hist"]]])
+            key = json.dumps([h["dim"], h["arr0"], [[a["a"], a["v"], a["ik"], a["jk"], a["re"], a["cnd"] >= 0] + ([a["i"]] if a["ik"] == "p" else []) + ([a["j"]] if a["jk"] == "p" else []) for a in h["hist"]]])
             groups.setdefault(key, []).append(t)
         gl = []
         for kk, ts in groups.items():
